@@ -203,6 +203,9 @@ class DLISFile:
             This function is used in a timeit call to time the file creation.
             """
 
+            if not self.logical_files:
+                raise RuntimeError("No logical file defined for the DLIS file")
+
             for lf in self.logical_files:
                 lf.check_objects()
 
